@@ -121,7 +121,10 @@ def run_case(ctx, rep, case, base_dir, model_ok):
                         del env.fake.objects[k_]
                 else:
                     os.remove(os.path.join(path, "metadata.version-hint.text"))
-            chooser = case["chooser"](rng) if callable(case.get("chooser")) else sched.random_chooser(rng, 0.55)
+            if callable(case.get("chooser")):
+                chooser = case["chooser"](rng, env) if case.get("chooser_takes_env") else case["chooser"](rng)
+            else:
+                chooser = sched.random_chooser(rng, 0.55)
             S = sched.Sched(chooser, watchdog_s=40)
             clock.on_now = lambda ms: S.record("clock", ms)
             if case["topology"] == "shared":
